@@ -8,6 +8,30 @@ import PyGqlModel.Ty
 
 namespace PyGql
 
+/-- kind of a Python parameter (`inspect.Parameter.kind`) -/
+inductive ParamKind where
+  | posOnly | posOrKw | varPos | kwOnly | varKw
+  deriving DecidableEq, Repr, Inhabited
+
+def ParamKind.ofString : String → ParamKind
+  | "posOnly" => .posOnly | "varPos" => .varPos | "kwOnly" => .kwOnly | "varKw" => .varKw | _ => .posOrKw
+
+def ParamKind.toString : ParamKind → String
+  | .posOnly => "posOnly" | .posOrKw => "posOrKw" | .varPos => "varPos" | .kwOnly => "kwOnly" | .varKw => "varKw"
+
+/-- one parameter of a resolver's `inspect.signature` -/
+structure ParamD where
+  name : String
+  kind : ParamKind := .posOrKw
+  hasDefault : Bool := false
+  deriving DecidableEq, Repr, Inhabited
+
+/-- a resolver callable as data: its signature (`inspectable = false`: `inspect.signature` raises `ValueError`) -/
+structure ResolverD where
+  inspectable : Bool := true
+  params : List ParamD := []
+  deriving DecidableEq, Repr, Inhabited
+
 /-- argument or input field -/
 structure ArgD where
   name : String
@@ -16,6 +40,8 @@ structure ArgD where
   /-- canonical JSON of the coerced Python default value (enum internal values as given) -/
   default : J := .null
   desc : Option String := none
+  /-- `python_name` (keyword under which the resolver receives the argument; defaults to `name`) -/
+  pythonName : String := name
   deriving Repr, Inhabited, BEq
 
 structure FieldD where
@@ -24,6 +50,8 @@ structure FieldD where
   args : List ArgD := []
   deprecated : Option String := none   -- deprecation reason
   desc : Option String := none
+  /-- `field.resolver` as data (none: no resolver set) -/
+  resolver : Option ResolverD := none
   deriving Repr, Inhabited, BEq
 
 structure EnumValD where
@@ -55,6 +83,10 @@ structure TypeD where
   members : List String := []        -- union
   values : List EnumValD := []       -- enum
   inputFields : List ArgD := []      -- input
+  /-- `ObjectType.default_resolver` as data -/
+  defaultResolver : Option ResolverD := none
+  /-- specified scalar or introspection type (exempt from the type-name rule) -/
+  builtin : Bool := false
   deriving Repr, Inhabited, BEq
 
 structure DirectiveD where
@@ -70,6 +102,8 @@ structure SchemaD where
   query : Option String := some "Query"
   mutation : Option String := none
   subscription : Option String := none
+  /-- `Schema.default_resolver` as data -/
+  defaultResolver : Option ResolverD := none
   deriving Repr, Inhabited, BEq
 
 namespace SchemaD
